@@ -9,6 +9,7 @@ import numqi.manifold as M
 from symnp import ir, scalars as S, arrays as A, facade, transc
 from symnp.scalars import SC
 from . import common as H
+from . import torchsup as T
 
 TOL = 1e-9
 
@@ -202,6 +203,9 @@ def replay(p):
     f = FUNCS[p['fn']]
     kw = p.get('kw', {})
     th = np.array(p['theta'], dtype=np.float64)
+    if p.get('backend'):
+        bad, msg = T.replay_backend(lambda arrs, as_torch: f(arrs[0], **kw), [th])
+        return bad, f"{p['fn']}{kw} theta={np.round(th, 6).tolist()}: {msg}"
     if p.get('batch'):
         thb = np.array(p['theta_batch'], dtype=np.float64)
         try:
@@ -234,7 +238,7 @@ def run(chk):
     rng = random.Random(chk.seed)
     chk.fn(*['numqi.manifold.' + k for k in FUNCS])
     chk.register_replayer('c01', replay)
-    chk.out_of_claim('every PyTorch branch and all nn.Module wrappers (torch tensors cannot carry symbolic elements); float32; softmax, exp (expm), QR, polar (eigh), '
+    chk.out_of_claim('nn.Module wrappers (parameter storage, autograd); float32; torch softplus threshold=20 linearisation (differs from log(1+e^x) by < 2.1e-9); softmax, exp (expm), QR, polar (eigh), '
                      'symmetric_matrix_to_trace1PSD, SeparableDensityMatrix, QuantumChannel, _ABk modules; to_trace1_psd_ensemble (softmax)')
     chk.bound(dims='2..4 (Euler: (3,2),(4,2),(4,3),(2,2),(3,3) quick; + (5,2),(5,3),(4,4) thorough)', theta='unbounded exact reals (conditioning bound irrelevant in the exact model)',
               batch='(2,n) equals per-sample calls for every map')
@@ -463,6 +467,66 @@ def run(chk):
         for pi, path in handle_raises(explore(fn_name, th2, {}), fn_name, 'positive', {}, th2, []):
             chk.add(f'{fn_name}: strictly positive for every theta (path {pi})', path.pc + path.facts + side_of(path), ir.band_all(ir.rcmp('lt', ir.ZERO, S.as_sc(x).re) for x in H.elems(path.value)),
                     key=f'{fn_name} not positive', replay=('c01', lambda m, th2=th2, fn_name=fn_name: theta_payload(m, th2, fn_name, 'positive', {})))
+    # ---- PyTorch branches: same exact values as the NumPy branch on the same symbolic theta (symnp.symtorch.SymTensor)
+    chk.fn('numqi.gellmann.gellmann_basis_to_matrix [torch branch]')
+    chk.stub('torch branch: torch.sigmoid -> same fresh-value contract as expit; torch.linalg.inv / cholesky_ex -> the exact adjugate / Cholesky stubs of the NumPy branch; '
+             'torch.nn.functional.softplus -> log1p(exp(-|x|)) + max(x,0) (== log(1+e^x) over the reals)')
+    stubs = {'sigmoid': sym_expit, 'inv': adj_inv, 'cholesky': exact_cholesky}
+    trng = random.Random(chk.seed + 1)
+
+    def backend(fn_name, npar, kw, kind, pre_fn=None, batch=False):
+        th = H.re_array(f'q{npar}{"b" if batch else ""}_', (2, npar) if batch else npar)
+        pre = pre_fn(th) if pre_fn else []
+        f = FUNCS[fn_name]
+        rp = ('c01', lambda m, th=th: {'fn': fn_name, 'kind': kind, 'kw': kw, 'backend': True, 'theta': np.real(H.eval_array(th, H.model_env(m, [th]))).tolist()})
+        T.backend_equiv(chk, f'{fn_name}{kw}{" batch (2,n)" if batch else ""}', lambda arrs, as_torch: f(arrs[0], **kw), [th], rp, f'{fn_name} {kw_key(kw)}',
+                        np_fac=fac, eg=eg, stubs=stubs, pre=pre, rng=trng)
+
+    nz = lambda th: [ir.bnot(H.eq_sc(H.norm2(th.reshape(-1)[:th.shape[-1]]), 0))] + ([ir.bnot(H.eq_sc(H.norm2(th[1]), 0))] if th.ndim == 2 else [])
+    for d in (2, 3) if quick else (2, 3, 4):
+        for is_real in (True, False):
+            n = d if is_real else 2 * d
+            kw = {'is_real': is_real}
+            for batch in (False, True):
+                backend('to_sphere_quotient', n, kw, 'sphere', nz, batch)
+                backend('to_ball', n, kw, 'ball', None, batch)
+                backend('to_sphere_coordinate', n - 1, kw, 'sphere', None, batch)
+        backend('to_discrete_probability_sphere', d, {}, 'simplex', nz)
+    for d in (2, 3):
+        for is_real, tr0, nm1 in itertools.product((True, False), (False, True), (False, True)):
+            npar = ((d * (d + 1)) // 2 if is_real else d * d) - (1 if tr0 else 0)
+            kw = {'dim': d, 'trace0': tr0, 'norm1': nm1}
+            for batch in (False, True) if d == 2 else (False,):
+                backend('to_symmetric_matrix', npar, kw, 'sym', nz if nm1 else None, batch)
+    for d, r in ((2, 1), (2, 2), (3, 2)) if quick else ((2, 1), (2, 2), (3, 1), (3, 2), (3, 3)):
+        N0 = (r * (2 * d - r + 1)) // 2
+        for is_real in (True, False):
+            backend('to_trace1_psd_cholesky', N0 if is_real else 2 * N0 - r, {'dim': d, 'rank': r}, 'psd')
+            if d == 2:
+                backend('to_trace1_psd_cholesky', N0 if is_real else 2 * N0 - r, {'dim': d, 'rank': r}, 'psd', None, True)
+    for d, r in ((3, 2), (2, 2), (2, 1), (3, 3)) if quick else ((3, 2), (4, 2), (2, 2), (3, 3), (2, 1), (3, 1), (4, 3)):
+        N0 = d * r - r * (r + 1) // 2
+        for mode in ('real', 'complex', 'phase'):
+            npar = N0 if mode == 'real' else (2 * N0 + (r if mode == 'phase' else 0))
+            if npar:
+                backend('to_stiefel_euler', npar, {'dim': d, 'rank': r, 'with_phase': mode == 'phase'}, 'stiefel')
+                if (d, r) == (3, 2):
+                    backend('to_stiefel_euler', npar, {'dim': d, 'rank': r, 'with_phase': mode == 'phase'}, 'stiefel', None, True)
+    for d, r in ((2, 1), (2, 2), (3, 2)):
+        N0 = (r * (r + 1)) // 2
+        for is_real in (True, False):
+            npar = d * r - N0 if is_real else 2 * d * r - 2 * N0
+            if npar:
+                backend('to_stiefel_choleskyL', npar, {'dim': d, 'rank': r}, 'stiefel')
+    for d in (2, 3):
+        for is_real in (True, False):
+            if d == 3 and not is_real:
+                continue
+            for order in (1, 2):
+                backend('to_special_orthogonal_cayley', d * (d - 1) // 2 if is_real else d * d - 1, {'dim': d, 'order': order}, 'so')
+    backend('to_open_interval', 1, {'lower': -1.5, 'upper': 2.0}, 'interval')
+    backend('to_positive_real_softplus', 2, {}, 'positive')
+    backend('to_positive_real_exp', 2, {}, 'positive')
     chk.assume('cos/sin enter only through c^2+s^2=1 (angle abstraction), exp/log1p/expit through sign and range axioms: exactly what the manifold constraints need')
     chk.solve(timeout_s=90 if quick else 600)
 
